@@ -377,9 +377,56 @@ func tracesOracle(prop string, res *RunResult) []Violation {
 		}
 		t.spans = append(t.spans, s)
 	}
+	// well formed = generated as such AND still so in what this run actually exported (a shrunk plan may have
+	// lost the request that carried a parent): one root, every parent present, no span id twice, no cycle
+	wfMemo := map[string]bool{}
 	wellFormed := func(id string) bool {
+		if v, ok := wfMemo[id]; ok {
+			return v
+		}
 		ts := byTrace[id]
-		return ts != nil && (ts.Kind == "ok" || ts.Kind == "big")
+		ok := ts != nil && (ts.Kind == "ok" || ts.Kind == "big")
+		if ref := refs[id]; ok && ref != nil {
+			par := map[string]string{}
+			for _, sp := range ref.spans {
+				if _, dup := par[sp.Span]; dup {
+					ok = false
+				}
+				par[sp.Span] = sp.Parent
+			}
+			if len(ref.roots) != 1 {
+				ok = false
+			}
+			for _, sp := range ref.spans {
+				if sp.Parent != "" {
+					if _, have := par[sp.Parent]; !have {
+						ok = false
+					}
+				}
+			}
+			if ok {
+				// every span reaches the root
+				state := map[string]int{} // 1 = on the current path, 2 = reaches the root
+				for start := range par {
+					var path []string
+					cur := start
+					for cur != "" && state[cur] == 0 {
+						state[cur] = 1
+						path = append(path, cur)
+						cur = par[cur]
+					}
+					if cur != "" && state[cur] == 1 {
+						ok = false
+						break
+					}
+					for _, x := range path {
+						state[x] = 2
+					}
+				}
+			}
+		}
+		wfMemo[id] = ok
+		return ok
 	}
 	hasDup := false
 	for _, t := range traces {
